@@ -252,6 +252,9 @@ SWAN_DIRS = {
     "D4r": [355.0, 85.0, 175.0, 265.0],           # rotated by one: the sorting permutation is not its own inverse
     "D5r": [200.0, 272.0, 344.0, 56.0, 128.0],
     "D6": [15.0, 75.0, 135.0, 195.0, 255.0, 315.0],
+    # listings that are ascending *as written* but leave [0,360) (SWAN itself writes e.g. 265 ... -85): sorted on paper, not modulo 360
+    "D4n": [-175.0, -85.0, 5.0, 95.0],
+    "D5w": [100.0, 172.0, 244.0, 316.0, 388.0],
 }
 
 
@@ -1044,7 +1047,7 @@ def cases_for(tier, seed):
     # ---- SWAN single file
     locs = ["1", "2diag", "2lon", "2lat", "3", "4lonmajor", "4latmajor"] + ([] if quick else ["6latmajor", "6lonmajor"])
     nfs = [2, 3] if quick else [2, 3, 4]
-    dsets = ["D4s", "D4u", "D4d", "D3", "D4r", "D5r"] + ([] if quick else ["D2", "D6"])
+    dsets = ["D4s", "D4u", "D4d", "D3", "D4r", "D5r", "D4n", "D5w"] + ([] if quick else ["D2", "D6"])
     n = 0
     for perm in [None] + P3:
         for loc in locs:
@@ -1242,7 +1245,7 @@ def run(rep, tier, seed, parts=None):
                 "wrapping; 2..70 / 2..200 x 4 (f0, df) pairs for the TRIAXYS header grid), the direction grids the format allows, "
                 "per-record value patterns {ramp, permuted ramp, impulse, constant, zero} x 3 magnitudes (x scales 1e-6..1e3 for SWAN, "
                 "1e-15..40 for WW3) assigned so that all records and all bins are distinguishable, every documented header variant "
-                "(SWAN: LONLAT/LOCATIONS, AFREQ/RFREQ, NDIR/CDIR (0..360 and -180..180), VaDens/EnDens, FACTOR/ZERO/NODATA blocks, "
+                "(SWAN: LONLAT/LOCATIONS, AFREQ/RFREQ, NDIR/CDIR (0..360 and -180..180; NDIR listings unsorted, rotated, descending and ascending-as-written beyond [0,360): -175..95, 100..388), VaDens/EnDens, FACTOR/ZERO/NODATA blocks, "
                 "TIME/stationary, 1-4 (thorough 6) locations as sites or grid in both listing orders (thorough: all 24 orders of a 2x2 "
                 "grid), dirorder/as_site; read_swans with 1..3 cycles x 1..2 sites; NDBC: realtime/history/.gz/no-minute, 1 or 5 files, "
                 "4 direction grids; TRIAXYS DIRSPEC/NONDIRSPEC, glob/list; Spotter CSV/JSON, dd None/5/30, bulk time stamp equal/offset; "
